@@ -30,9 +30,20 @@ LOOKUPS = {"pwd.getpwnam", "pwd.getpwuid", "grp.getgrnam", "grp.getgrgid"}
 
 def _is_server_ctor(ctx, ev) -> bool:
     t = ev.target
-    if t.kind != "ctor" or t.cls is None:
-        return False
-    return any(b.startswith("socketserver.") for b in ctx.prog.external_bases(t.cls))
+    if t.kind == "ctor" and t.cls is not None:
+        return any(b.startswith("socketserver.") for b in ctx.prog.external_bases(t.cls))
+    # the class is picked at run time (a local, a table lookup, a helper's result): a call that is handed the
+    # request-handler class is the server being constructed, which binds the listening socket
+    if t.kind in ("unknown", "repo") and isinstance(ev.node, ast.Call) and ev.frame and ev.frame[0] is not None:
+        for a in list(ev.node.args) + [k.value for k in ev.node.keywords]:
+            d = dotted(a)
+            if not d:
+                continue
+            res = ctx.prog.resolve_dotted(ev.frame[0].module, d)
+            if res and res[0] == "class" and any(b.startswith("socketserver.") and b.endswith("RequestHandler")
+                                                 for b in ctx.prog.external_bases(res[1])):
+                return True
+    return False
 
 
 def _classify(ctx, ev):
@@ -261,7 +272,7 @@ def check(ctx, rep):
         rep.fail("R19a", "bin/pygopherd", detail="start-up script not found")
     else:
         mf = module_func(binmod)
-        wb = Walker(prog, ctx.resolver)
+        wb = Walker(prog, ctx.resolver, inline=lambda fn, t, d: d < 3 and fn.module is binmod)  # a main() in the script is part of it
         bpaths = wb.run_body(binmod.tree.body, mf)
         problems = set()
         found_init = False
